@@ -54,14 +54,32 @@ def rand_term(rnd, xs, depth):
     return rt0(rnd, rnd.choice([a, b]), 1)
 
 
-def same(t, env):
+def rand_watch(rnd, t):
+    """overflow flags on some two-operand add/sub/mul nodes of t (as irterm records them)"""
+    w = {}
+    seen = set()
+    st = [t]
+    while st:
+        x = st.pop()
+        if not isinstance(x, tuple) or id(x) in seen:
+            continue
+        seen.add(id(x))
+        if x[0] in ("add", "sub", "mul") and len(x) == 4 and rnd.random() < 0.5:
+            w[id(x)] = [(x[0], rnd.choice(["nsw", "nuw", "nswnuw"]), x[2], x[3], None)]
+        st.extend(y for y in x[2:] if isinstance(y, tuple))
+    return w
+
+
+def same(t, env, watch=None):
+    if watch:
+        env = dict(env, watch=watch)
     try:
         r1 = ("v", T.ev(t, dict(env)))
     except T.Poison:
         r1 = ("poison",)
     except T.Uneval:
         r1 = ("uneval",)
-    c = tcompile.compiled(t)
+    c = tcompile.compiled(t, watch)
     try:
         r2 = ("v", c.ev(dict(env)))
     except T.Poison:
@@ -81,10 +99,11 @@ def main():
         tcompile._cache.clear()
         xs = [T.arg(0, 0, W), T.arg(1, 0, W)]
         t = rand_term(rnd, xs, rnd.randrange(1, 5))
+        watch = rand_watch(rnd, t) if it % 3 == 0 else None
         for _ in range(10):
             args = [rnd.choice([0, 1, W, (1 << W) - 1, 1 << (W - 1), rnd.getrandbits(W), rnd.getrandbits(W) & 0xFF]) for _ in xs]
             for rm in ("RN", "RD", "RU", "RZ") if T.has_fp(t) else ("RN",):
-                ok, r1, r2 = same(t, {"args": args, "rm": rm})
+                ok, r1, r2 = same(t, {"args": args, "rm": rm}, watch)
                 n += 1
                 if not ok:
                     bad += 1
